@@ -44,7 +44,18 @@ def trees():
         node(["app"], "app", g.Seq(g.Rep(g.Optional(NN)), g.Optional(g.Opt("-h")), g.Optional(X)), subs=[1], prog=H_PROG),
         node(["get", "g"], "app get", g.Seq(g.Optional(g.Grp(["-f", "-n"], all_=True)), g.Optional(X)), spec="[OPTIONS] [X]"),
     ]}
-    return [t1, t2, t3, t4]
+    # commands that declare nothing: the same application object can be Run several times (a sub command is initialised
+    # again on every Run, which panics on the second declaration of an option or argument)
+    BARE = {"opts": [], "args": []}
+    t5 = {"version": "", "nodes": [
+        node(["app"], "app", g.Seq(), subs=[1, 3], prog=BARE, spec=""),
+        node(["one", "o1"], "app one", g.Seq(), subs=[2], prog=BARE, spec=""),
+        node(["deep"], "app one deep", g.Seq(), prog=BARE, spec=""),
+        node(["two"], "app two", g.Seq(), prog=BARE, spec=""),
+    ]}
+    for n in t5["nodes"]:
+        n["bare"] = True
+    return [t1, t2, t3, t4, t5]
 
 
 def tla_input(trs, alphabet, maxlen, policies):
@@ -61,12 +72,12 @@ def tla_input(trs, alphabet, maxlen, policies):
     return {"trees": out, "alphabet": [list(t) for t in alphabet], "maxlen": maxlen, "policies": list(policies), "validints": ["7", "12"]}
 
 
-def harness_case(t, policy, argv):
+def harness_case(t, policy, argv, prerun=()):
     nodes = []
     for n in t["nodes"]:
         nodes.append({"names": n["names"], "path": n["path"], "spec": n["spec"], "opts": [o for o in n["prog"]["opts"] if o["flag"]], "intopt": "n",
-                      "args": ["X"], "subs": n["subs"], "action": n["action"]})
-    return {"nodes": nodes, "version": t["version"], "policy": policy, "argv": argv}
+                      "args": ["X"], "subs": n["subs"], "action": n["action"], "bare": n.get("bare", False)})
+    return {"nodes": nodes, "version": t["version"], "policy": policy, "argv": argv, "prerun": [list(p) for p in prerun]}
 
 
 def predict(workdir, trs, alphabet, maxlen, policies, timeout=3000):
